@@ -288,7 +288,14 @@ def check_fresh(roots):
       twin = fresh.sym_get(n.sym_path) if n.sym_path.keys else fresh
       if type(twin) is not type(n):
         return 'unavailable', keys
-      d = _facts_differ(mine, facts(twin))
+      try:
+        theirs = facts(twin)
+      except RecursionError:
+        raise
+      except Exception as e:   # pylint: disable=broad-except
+        return ('computing the derived facts of a fresh copy of %s at %r of root %d raised %r' % (
+            type(n).__name__, str(n.sym_path), ri, e), {'fact': 'raises', 'node': treeops.kind_of(n)}), keys
+      d = _facts_differ(mine, theirs)
       if d is not None:
         return ('%s of %s at %r of root %d reports %s, a fresh computation gives %s' % (
             d[0], type(n).__name__, str(n.sym_path), ri, _r(d[1]), _r(d[2])),
